@@ -141,7 +141,7 @@ func c10Apply(cch Cache, op string) {
 }
 
 var c10Ops = []string{"pod:0", "pod:1", "ctr:0", "ctr:1", "creating:2", "pin:c0", "pin:c1", "state:c0", "tag:c0", "upd:c0", "classes:c1", "aff:c0",
-	"entry-string", "entry-map", "entry-cpuset", "entry-cacheable", "delctr:c0", "delpod:p1"}
+	"entry-string", "entry-map", "entry-cpuset", "entry-cacheable", "delctr:c0", "delpod:p1", "restart"}
 
 // c10Render renders everything the property lists, through public getters only.
 func c10Render(cch Cache) string {
@@ -304,7 +304,20 @@ func c10Run(w *mc.Worker, scratch string, trace []string, judge bool) (key strin
 	}
 	for i, op := range trace {
 		nBefore := len(saves)
-		p, msg, where := mc.Guard(func() { c10Apply(cch, op) })
+		p, msg, where := mc.Guard(func() {
+			if op == "restart" {
+				// the plugin process ends at this request boundary and a new one loads the state directory; nothing is
+				// rendered (rendering reads every policy entry, which itself changes what the new instance has decoded)
+				n, err := NewCache(Options{CacheDir: dir})
+				if err != nil {
+					viol("restart-fails", "restart-fails", "NewCache on the state directory fails: %v", err)
+					return
+				}
+				cch = n
+				return
+			}
+			c10Apply(cch, op)
+		})
 		if p {
 			if i == len(trace)-1 {
 				viols = append(viols, mc.Violation{Property: "C14", Oracle: "panic", Signature: "panic@" + where + ":cache-" + strings.Split(op, ":")[0], Scenario: "cache", Trace: trace, Detail: msg})
@@ -325,7 +338,7 @@ func c10Run(w *mc.Worker, scratch string, trace []string, judge bool) (key strin
 		}
 	}
 	vos.Before, vos.After = nil, nil
-	live := c10Render(cch)
+	live := ""
 	if judge {
 		for _, k := range other {
 			viol("cache-file-not-replaced-by-rename", "cache-file-not-replaced-by-rename:"+k, "the cache file was touched by a %q step; it may only ever be replaced by rename", k)
@@ -348,7 +361,19 @@ func c10Run(w *mc.Worker, scratch string, trace []string, judge bool) (key strin
 		// --- single write failures of a save
 		c10JudgeFaults(w, cch, tmp, file, viol)
 	}
-	return mc.Hash(live), viols
+	live = c10Render(cch)
+	return mc.Hash(live) + restartTail(trace), viols
+}
+
+// restartTail distinguishes states by what happened since the last restart: a reloaded instance holds entries it has not
+// decoded yet, which rendering cannot show (it decodes them), so histories are only merged when that part agrees too.
+func restartTail(trace []string) string {
+	for i := len(trace) - 1; i >= 0; i-- {
+		if trace[i] == "restart" {
+			return "|restart+" + strings.Join(trace[i+1:], ",")
+		}
+	}
+	return ""
 }
 
 func c10DiffKey(a, b string) string {
